@@ -77,6 +77,14 @@ func init() {
 			return strings.HasPrefix(key, "reader/logql/logql_transpiler_v2/internal_planner.")
 		}),
 	}
+	properties["C10"] = &Property{
+		Rules: []string{"P0", "E1", "E3", "E4"},
+		Explanation: "Decides C10 as a static information-flow property: request text reaches SQL text only through the literal-escaping routine. (E1) Every raw-SQL sink under reader/ — sql.NewRawObject / NewSimpleCol / FmtRawObject arguments, NewCol / NewWith aliases, join types, and the text returned by every String(*sql.Ctx, …) renderer and custom-column closure — is traced backwards over SSA (phis, concatenation, fmt/strings transforms, struct fields, parameters to all call sites, closures, dynamic calls through the call graph); " +
+			"each leaf must be a constant, a number, a table name, a grammar field whose participle tag captures only token classes that cannot contain quote / backslash / blank (decided from the lexer regexps), a rendered sub-object, or a database value. Request text at a leaf (quoted-string grammar fields, HTTP / mux accessors, decoded request messages) is a violation. " +
+			"(E3) The escaping routine itself doubles the backslash before it escapes the quote, replaces every occurrence, and wraps the value in quotes. (E4) Text that left the escaping routine is only concatenated / formatted, or rewritten by operations that keep escape sequences balanced; replacing backslashes or quotes in it, slicing it or trimming more than its enclosing quotes is a violation. (P0) no plugin can replace the planners.",
+		NotCovered:  "That the statement as a whole is valid SQL; identifier positions filled from lexer-restricted tokens are accepted on the strength of the lexer regexps (not re-validated at the sink); values that reach SQL as numbers are accepted by type; the analysis is field-based (one abstract cell per struct field), so it over-approximates flows — it cannot miss a flow through the modelled constructs but reflection, unsafe and cgo are not modelled (none occur under reader/).",
+		Assumptions: []string{commonAssume, "ClickHouse string literals end at the first unescaped single quote and use backslash as the escape character"},
+	}
 	properties["C11"] = &Property{
 		Rules: []string{"P0", "D2", "D3"},
 		Explanation: "Decides only dispatch-shaped necessary conditions of C11 in the TraceQL translators (reader/traceql/...): operator, aggregator and &&/|| cases are pairwise distinguishable (D2) and each comparison clause builds its own operator (D3). " +
